@@ -147,6 +147,23 @@ func (x *Exec) ghostField(n *types.Named, field string) *GhostDecl {
 	return x.sp.Ghosts["field:"+p+"."+k+"."+field]
 }
 
+// named introduces (once per path) a constant for a compound term, to keep later terms small.
+func (x *Exec) named(st *State, hint, term, sortName string) string {
+	if len(st.cond) > 0 {
+		return term
+	}
+	if st.names == nil {
+		st.names = map[string]string{}
+	}
+	if c, ok := st.names[term]; ok {
+		return c
+	}
+	c := x.freshConst("v_"+hint, sortName)
+	st.pc = append(st.pc, app("=", c, term))
+	st.names[term] = c
+	return c
+}
+
 // readField reads obj.field where obj is a pointer to a struct.
 func (x *Exec) readField(st *State, obj Val, field string) (Val, bool) {
 	n, s := ptrStruct(obj.G)
@@ -154,7 +171,7 @@ func (x *Exec) readField(st *State, obj Val, field string) (Val, bool) {
 		for i := 0; i < s.NumFields(); i++ {
 			if f := s.Field(i); f.Name() == field {
 				c := x.comp(st, fieldComp(n, field), arrayOf(x.w.sortOf(f.Type())))
-				v := Val{T: app("select", c.T, obj.T), S: x.w.sortOf(f.Type()), G: f.Type()}
+				v := Val{T: x.named(st, field, app("select", c.T, obj.T), x.w.sortOf(f.Type())), S: x.w.sortOf(f.Type()), G: f.Type()}
 				x.assumeWellTyped(st, v)
 				return v, true
 			}
@@ -291,7 +308,7 @@ func (x *Exec) mapWrite(st *State, m Val, k string, nv Val) {
 		// ground instance of the sum update lemma L_upd
 		oldc := app("ite", app("select", d, k), app("nn", app("select", v, k)), "0")
 		st.assume(app("=", app("msum", nd, nvv), app("+", app("-", app("msum", d, v), oldc), app("nn", nv.T))))
-		st.assume(app(">=", app("msum", d, v), oldc))
+		st.assume(and(app(">=", app("msum", d, v), oldc), app(">=", app("msum", nd, nvv), "0")))
 	}
 	x.setComp(st, "mdom_"+sortTag(vs), Val{T: app("store", dom.T, m.T, nd), S: dom.S})
 	x.setComp(st, "mval_"+sortTag(vs), Val{T: app("store", val.T, m.T, nvv), S: val.S})
@@ -332,7 +349,7 @@ func (x *Exec) arrComp(st *State, es string) Val {
 func (x *Exec) sliceAt(st *State, s Val, i string) Val {
 	es, et := x.elemSort(s)
 	a := x.arrComp(st, es)
-	v := Val{T: app("select", app("select", a.T, app("sl_arr", s.T)), app("+", app("sl_off", s.T), i)), S: es, G: et}
+	v := Val{T: app("select", app("select", a.T, app("sl_arr", s.T)), app("at", app("sl_off", s.T), i)), S: es, G: et}
 	return v
 }
 
@@ -880,7 +897,7 @@ func (x *Exec) sliceWrite(st *State, n ast.Node, s Val, i string, v Val) {
 	a := x.arrComp(st, es)
 	ref := app("sl_arr", s.T)
 	x.heapWriteHook(st, n, ref)
-	inner := app("store", app("select", a.T, ref), app("+", app("sl_off", s.T), i), v.T)
+	inner := app("store", app("select", a.T, ref), app("at", app("sl_off", s.T), i), v.T)
 	x.setComp(st, "arr_"+sortTag(es), Val{T: app("store", a.T, ref, inner), S: a.S})
 	st.wrote("arr_"+sortTag(es), ref, "true")
 }
